@@ -222,6 +222,15 @@ def run_tasks(tasks, worker=run_task, procs=None, wall_budget=None):
     t0 = time.time()
     ctx = mp.get_context("fork")
     tasks = sorted(tasks, key=_cost_estimate, reverse=True)
+    if wall_budget is not None:
+        # under a wall budget: interleave cheap and expensive tasks so that a cut does not drop one class
+        half = len(tasks) // 2
+        inter = []
+        for a, b in zip(tasks[:half], reversed(tasks[half:])):
+            inter += [a, b]
+        inter += tasks[2 * half:] if len(tasks) % 2 else []
+        if len(inter) == len(tasks):
+            tasks = inter
     with ctx.Pool(procs) as pool:
         it = pool.imap_unordered(worker, tasks, chunksize=1)
         for r in it:
